@@ -110,6 +110,13 @@ def pmap(fn, items, workers=NPROC):
         return list(ex.map(fn, items))
 
 
+def pmap_processes(fn, items, workers=NPROC):
+    """like pmap, in worker processes (fn and items must be picklable: module-level function,
+    plain data); worthwhile when every item spawns dozens of short-lived commands"""
+    with concurrent.futures.ProcessPoolExecutor(max_workers=workers) as ex:
+        return list(ex.map(fn, items, chunksize=4))
+
+
 def rng(ctx, salt):
     return random.Random(f"{ctx.seed}/{ctx.prop}/{salt}")
 
